@@ -1,5 +1,6 @@
 import Logrange.Proofs.Forwarder
 import Logrange.Generated.C18
+import Logrange.Model.StateFile
 /-!
 # C18 — Forwarder: in-order at-least-once delivery; saved position never ahead
 
@@ -128,6 +129,65 @@ theorem drains_when_quiet (n start : Nat) (hs : start ≤ n) (tr : List L) (k m 
     have := h'.posHigh; omega
   · show s'.desc = s.n
     rw [h'.descPos, hpos]
+
+/-! ### worker start and the state file (the code after fixes b3f8b31, 1b7795d, 23be637, e59ee79) -/
+
+/-- the start configuration as the extractor reads it from `/repo` now -/
+def genStartCfg : StartCfg :=
+  { reportsFailure := Generated.C18.ensurePipeReportsFailure,
+    marksStopped := Generated.C18.workerMarksStoppedOnStartError }
+
+/-- a failed query of any kind — also an answer that could not be decoded — reaches the worker as a failed query -/
+theorem start_facts : genStartCfg = ⟨true, true⟩ ∧ Generated.C18.queryReturnsDecodeError = true := by decide
+
+/-- **`failed_ensure_is_retried`** For every sequence of `EnsurePipe` successes and transport failures and sync ticks:
+the worker is never lost (`dead`: ended without saying so) and never blind (polling an empty destination); whatever
+happened before, one sync tick and one successful `EnsurePipe` later it runs its poll loop — from where
+`drains_when_quiet` forwards every event of the pipe's partition. -/
+theorem failed_ensure_is_retried (tr : List StartL) :
+    let s := startRun genStartCfg .ensuring tr
+    s ≠ .dead ∧ s ≠ .blind ∧ startRun genStartCfg s [.syncTick, .ensureOk] = .running := by
+  have hc : genStartCfg = ⟨true, true⟩ := start_facts.1
+  rw [hc]
+  suffices h : ∀ (tr : List StartL) (s0 : Start), s0 ≠ .dead → s0 ≠ .blind →
+      startRun ⟨true, true⟩ s0 tr ≠ .dead ∧ startRun ⟨true, true⟩ s0 tr ≠ .blind ∧
+      startRun ⟨true, true⟩ (startRun ⟨true, true⟩ s0 tr) [.syncTick, .ensureOk] = .running from
+    h tr .ensuring (by decide) (by decide)
+  intro tr
+  induction tr with
+  | nil => intro s0 h1 h2; cases s0 <;> simp_all [startRun, startStep]
+  | cons l ls ih =>
+    intro s0 h1 h2
+    simp only [startRun]
+    apply ih
+    · cases s0 <;> cases l <;> simp_all [startStep]
+    · cases s0 <;> cases l <;> simp_all [startStep]
+
+/-- the two start orders the code no longer uses: a swallowed failure leaves the worker blind for ever (F80), a
+reported failure without the stopped mark leaves it dead for ever (F81) — no sync tick or later success helps -/
+theorem cex_ensure_failure_old (tr : List StartL) :
+    startRun ⟨false, true⟩ .ensuring (.ensureFail :: tr) = .blind ∧
+    startRun ⟨true, false⟩ .ensuring (.ensureFail :: tr) = .dead := by
+  constructor
+  · show startRun ⟨false, true⟩ .blind tr = .blind
+    induction tr with
+    | nil => rfl
+    | cons l ls ih => cases l <;> simpa [startRun, startStep] using ih
+  · show startRun ⟨true, false⟩ .dead tr = .dead
+    induction tr with
+    | nil => rfl
+    | cons l ls ih => cases l <;> simpa [startRun, startStep] using ih
+
+/-- **`state_file_old_or_new`** (fix e59ee79) At every crash cut of a save, `forwarder.json` holds the old or the new
+complete content — so the position a restart loads is one that was persisted (`position_never_ahead`,
+`restart_redelivery_bounded` apply to it). -/
+theorem state_file_old_or_new (old new c : Bytes)
+    (h : c ∈ StateFile.crashCuts Generated.C18.stateFileReplacedAtomically old new) : c = old ∨ c = new := by
+  have hf : Generated.C18.stateFileReplacedAtomically = true := by decide
+  simpa [StateFile.crashCuts, hf] using h
+
+/-- the in-place write passes through the empty file (F83 / F60) -/
+theorem cex_state_file_in_place : ([] : Bytes) ∈ StateFile.crashCuts false [1, 2] [3, 4] := by decide
 
 /-! ### what the theorems exclude (the two orders the code does not use) -/
 
